@@ -946,6 +946,196 @@ theorem walkLoop_terminates (h : HF3 K) (d : V3 K) (maxToi : K) (tx tz : St → 
         exact hne ⟨b, a⟩
       omega
 
+/-! ## every traced cell is a cell of the field -/
+
+section infield
+variable {K : Type} [Num K]
+
+/-- cell inside the field -/
+def InField (ni nj : Nat) (c : Int × Int) : Prop := 0 ≤ c.1 ∧ c.1 < ni ∧ 0 ≤ c.2 ∧ c.2 < nj
+
+theorem hitCell_infield (ni nj : Nat) (out : List (Int × Int)) (i j : Int) (ho : ∀ c ∈ out, InField ni nj c) :
+    ∀ c ∈ hitCell ni nj out i j, InField ni nj c := by
+  unfold hitCell
+  split
+  · rename_i hc
+    intro c hcm
+    rcases List.mem_append.1 hcm with h1 | h1
+    · exact ho c h1
+    · simp only [List.mem_singleton] at h1
+      subst h1
+      exact ⟨hc.1, hc.2.2.1, hc.2.1, hc.2.2.2⟩
+  · exact ho
+
+theorem foldl_hitCell_infield {α : Type} (ni nj : Nat) (f : α → Int × Int) (l : List α) (out : List (Int × Int))
+    (ho : ∀ c ∈ out, InField ni nj c) :
+    ∀ c ∈ l.foldl (fun acc a => hitCell ni nj acc (f a).1 (f a).2) out, InField ni nj c := by
+  induction l generalizing out with
+  | nil => exact ho
+  | cons a l ih => exact ih _ (hitCell_infield ni nj out _ _ ho)
+
+theorem stepWith_infield (h : HF3 K) (d : V3 K) (maxToi tx tz : K) (s s' : St)
+    (hstep : stepWith h d maxToi tx tz s = .cont s') (ho : ∀ c ∈ s.out, InField h.ni h.nj c) :
+    ∀ c ∈ s'.out, InField h.ni h.nj c := by
+  obtain ⟨di, dj, -, -, -, -, -, hout⟩ := stepWith_cont_spec h d maxToi tx tz s s' hstep
+  rw [hout]
+  simp only
+  have h1 : ∀ (o : List (Int × Int)) (i0 : Int) (l : List Int), (∀ c ∈ o, InField h.ni h.nj c) →
+      ∀ c ∈ l.foldl (fun acc j => hitCell h.ni h.nj acc i0 j) o, InField h.ni h.nj c :=
+    fun o i0 l hoo => foldl_hitCell_infield h.ni h.nj (fun j => (i0, j)) l o hoo
+  have h2 : ∀ (o : List (Int × Int)) (j0 : Int) (l : List Int), (∀ c ∈ o, InField h.ni h.nj c) →
+      ∀ c ∈ l.foldl (fun acc i => hitCell h.ni h.nj acc i j0) o, InField h.ni h.nj c :=
+    fun o j0 l hoo => foldl_hitCell_infield h.ni h.nj (fun i => (i, j0)) l o hoo
+  have key : ∀ (c1 c2 : Prop) [Decidable c1] [Decidable c2] (i0 j0 : Int) (l1 l2 : List Int),
+      ∀ c ∈ (if c2 then l2.foldl (fun acc i => hitCell h.ni h.nj acc i j0)
+                (if c1 then l1.foldl (fun acc j => hitCell h.ni h.nj acc i0 j) s.out else s.out)
+              else (if c1 then l1.foldl (fun acc j => hitCell h.ni h.nj acc i0 j) s.out else s.out)),
+        InField h.ni h.nj c := by
+    intro c1 c2 _ _ i0 j0 l1 l2
+    have hA : ∀ c ∈ (if c1 then l1.foldl (fun acc j => hitCell h.ni h.nj acc i0 j) s.out else s.out),
+        InField h.ni h.nj c := by
+      split
+      · exact h1 _ _ _ ho
+      · exact ho
+    split
+    · exact h2 _ _ _ hA
+    · exact hA
+  exact key _ _ _ _ _ _
+
+theorem walkLoop_infield (h : HF3 K) (d : V3 K) (maxToi : K) (tx tz : St → K) (n : Nat) (s : St)
+    (ho : ∀ c ∈ s.out, InField h.ni h.nj c) :
+    ∀ c ∈ (walkLoop (fun s => stepWith h d maxToi (tx s) (tz s) s) n s).trace, InField h.ni h.nj c := by
+  induction n generalizing s with
+  | zero => exact ho
+  | succ n ih =>
+    unfold walkLoop
+    split
+    · rename_i out hst
+      obtain ⟨e, -⟩ := stepWith_stop_spec h d maxToi _ _ s out hst
+      subst e; exact ho
+    · rename_i out hst
+      have : out = s.out := by
+        unfold stepWith at hst
+        split at hst
+        · cases hst
+        · split at hst
+          · injection hst with hst; exact hst.symm
+          · split at hst
+            · cases hst
+            · simp only at hst
+              split at hst
+              · cases hst
+              · cases hst
+      subst this; exact ho
+    · rename_i s' hst
+      exact ih s' (stepWith_infield h d maxToi _ _ s s' hst ho)
+
+/-- **Every cell of the trace is a cell of the field.** -/
+theorem walk_trace_infield (q : Quant K) (pinned : Bool) (h : HF3 K) (aabb2 : Aabb3 K) (vel : V3 K) (maxToi : K) (fuel : Nat) :
+    ∀ c ∈ (walk q pinned h aabb2 vel maxToi fuel).trace, InField h.ni h.nj c := by
+  unfold walk
+  split
+  · intro c hc; cases hc
+  · rename_i o s0 hinit
+    have h0 : ∀ c ∈ s0.out, InField h.ni h.nj c := by
+      unfold walkInit at hinit
+      simp only at hinit
+      split at hinit
+      · cases hinit
+      · injection hinit with hinit
+        injection hinit with _ hs
+        subst hs
+        simp only
+        intro c hc
+        rw [mem_foldl_block] at hc
+        rcases hc with hc | hc
+        · cases hc
+        · exact ⟨hc.2.2.1, hc.2.2.2.2.1, hc.2.2.2.1, hc.2.2.2.2.2⟩
+    split
+    · exact h0
+    · cases pinned
+      · exact walkLoop_infield h vel maxToi _ _ fuel s0 h0
+      · exact walkLoop_infield h vel maxToi _ _ fuel s0 h0
+
+end infield
+
+/-! ## the 3-D cast returns the first impact over ALL triangles -/
+
+/-- the triangles `hit_triangles` hands to the part cast along a trace of cells: both triangles of each cell, in order -/
+def trianglesOf (tr : List (Int × Int)) : List ((Int × Int) × Bool) := tr.flatMap fun c => [(c, false), (c, true)]
+
+theorem mem_trianglesOf (tr : List (Int × Int)) (c : Int × Int) (b : Bool) : (c, b) ∈ trianglesOf tr ↔ c ∈ tr := by
+  simp only [trianglesOf, List.mem_flatMap, List.mem_cons, List.not_mem_nil, or_false, Prod.mk.injEq]
+  constructor
+  · rintro ⟨a, ha, ⟨rfl, _⟩ | ⟨rfl, _⟩⟩ <;> exact ha
+  · intro hc
+    refine ⟨c, hc, ?_⟩
+    cases b
+    · exact Or.inl ⟨rfl, rfl⟩
+    · exact Or.inr ⟨rfl, rfl⟩
+
+/-- **The 3-D height-field cast returns the first impact over ALL triangles**, relative to the part casts.  `part (c, b)` is what
+the dispatcher answers for triangle `b` of cell `c` (`None` for a removed triangle); hypothesis `hloc`: a part hit happens at a time
+`t ∈ [0, max_time_of_impact]` at which the moving (loosened) box meets the open rectangle of the cell and overlaps the vertical
+range of the field (locality of the part cast).  Then for a walk that ends normally the running minimum over the triangles of the
+trace is `None` iff no triangle of the field has a hit, and otherwise a triangle hit with the smallest time of impact among all
+triangles of the field. -/
+theorem castHF3_first {H : Type} (q : Quant K) (hq : LawfulQuant q) (hc : LawfulCeil q) (h : HF3 K) (hi : 0 < h.ni) (hj : 0 < h.nj)
+    (hsx : 0 < h.scale.x) (hsz : 0 < h.scale.z)
+    (hgx : h.aabb.mins.x ≤ XL sq q h 0 ∧ XL sq q h h.nj ≤ h.aabb.maxs.x)
+    (hgz : h.aabb.mins.z ≤ ZL sq q h 0 ∧ ZL sq q h h.ni ≤ h.aabb.maxs.z)
+    (aabb2 : Aabb3 K) (hv2 : aabb2.mins.x ≤ aabb2.maxs.x ∧ aabb2.mins.y ≤ aabb2.maxs.y ∧ aabb2.mins.z ≤ aabb2.maxs.z)
+    (vel : V3 K) (maxToi : K) (hm0 : 0 ≤ maxToi) (hmb : maxToi ≤ @realMax K (fieldNum K sq))
+    (fuel : Nat) (tr : List (Int × Int)) (hw : @walk K (fieldNum K sq) q false h aabb2 vel maxToi fuel = .done tr)
+    (toi : H → K) (part : (Int × Int) × Bool → Option H)
+    (hloc : ∀ (c : Int × Int) (b : Bool) (x : H), 0 ≤ c.1 → c.1 < h.ni → 0 ≤ c.2 → c.2 < h.nj → part (c, b) = some x →
+      0 ≤ toi x ∧ toi x ≤ maxToi ∧ toi x < @realMax K (fieldNum K sq) ∧
+      (aabb2.mins.x + toi x * vel.x < XL sq q h (c.2 + 1) ∧ XL sq q h c.2 < aabb2.maxs.x + toi x * vel.x) ∧
+      (aabb2.mins.z + toi x * vel.z < ZL sq q h (c.1 + 1) ∧ ZL sq q h c.1 < aabb2.maxs.z + toi x * vel.z) ∧
+      (aabb2.mins.y + toi x * vel.y < h.aabb.maxs.y ∧ h.aabb.mins.y < aabb2.maxs.y + toi x * vel.y)) :
+    let InField := fun c : Int × Int => 0 ≤ c.1 ∧ c.1 < h.ni ∧ 0 ≤ c.2 ∧ c.2 < h.nj
+    (@HW2.bestOf K (fieldNum K sq) H toi ((trianglesOf tr).map part) = none ↔ ∀ c b, InField c → part (c, b) = none) ∧
+    (∀ r, @HW2.bestOf K (fieldNum K sq) H toi ((trianglesOf tr).map part) = some r →
+      (∃ k ∈ trianglesOf tr, part k = some r) ∧ ∀ c b x, InField c → part (c, b) = some x → toi r ≤ toi x) := by
+  intro InField
+  have htr : ∀ c ∈ tr, 0 ≤ c.1 ∧ c.1 < h.ni ∧ 0 ≤ c.2 ∧ c.2 < h.nj := by
+    have := @walk_trace_infield K (fieldNum K sq) q false h aabb2 vel maxToi fuel
+    rw [hw] at this
+    exact this
+  have hfull := walk_covers_full_generic sq q hq hc h hi hj hsx hsz hgx hgz aabb2 hv2 vel maxToi hm0 hmb
+  let cells : List (Int × Int) := (irange 0 h.ni).flatMap fun i => (irange 0 h.nj).map fun j => (i, j)
+  have hcells : ∀ c, c ∈ cells ↔ InField c := by
+    intro c
+    simp only [cells, List.mem_flatMap, List.mem_map, mem_irange, InField]
+    constructor
+    · rintro ⟨i, ⟨i0, i1⟩, j, ⟨j0, j1⟩, rfl⟩; exact ⟨i0, i1, j0, j1⟩
+    · rintro ⟨i0, i1, j0, j1⟩; exact ⟨c.1, ⟨i0, i1⟩, c.2, ⟨j0, j1⟩, rfl⟩
+  have hall : ∀ c b, (c, b) ∈ trianglesOf cells ↔ InField c := fun c b => by rw [mem_trianglesOf, hcells]
+  obtain ⟨c1, c2⟩ := bestOf_cover sq toi part (trianglesOf tr) (trianglesOf cells)
+    (fun k hk => by
+      obtain ⟨c, b⟩ := k
+      exact (hall c b).2 (htr c ((mem_trianglesOf tr c b).1 hk)))
+    (fun k hk hne => by
+      obtain ⟨c, b⟩ := k
+      obtain ⟨i0, i1, j0, j1⟩ := (hall c b).1 hk
+      cases hp : part (c, b) with
+      | none => exact absurd hp hne
+      | some x =>
+        obtain ⟨t0, t1, _, ox, oz, oy⟩ := hloc c b x i0 i1 j0 j1 hp
+        exact (mem_trianglesOf tr c b).2 (hfull fuel tr hw c.1 c.2 (toi x) i0 i1 j0 j1 t0 t1 ox.1 ox.2 oz.1 oz.2 oy.1 oy.2))
+    (fun k hk x hx => by
+      obtain ⟨c, b⟩ := k
+      obtain ⟨i0, i1, j0, j1⟩ := (hall c b).1 hk
+      exact (hloc c b x i0 i1 j0 j1 hx).2.2.1)
+  refine ⟨?_, ?_⟩
+  · rw [c1]
+    exact ⟨fun h' c b hc' => h' (c, b) ((hall c b).2 hc'), fun h' k hk => by
+      obtain ⟨c, b⟩ := k
+      exact h' c b ((hall c b).1 hk)⟩
+  · intro r hr
+    obtain ⟨e1, e2⟩ := c2 r hr
+    exact ⟨e1, fun c b x hc' hx => e2 (c, b) ((hall c b).2 hc') x hx⟩
+
 /-- non-vacuity of `walk_covers_full_generic` / `walkLoop_covers_path`: 4 × 4 unit cells on `[-2, 2]²`, a box of half-width `1/4`
 centred in cell `(0, 0)` moving along `(1, 0, 1/2)` for `max_time_of_impact = 2`: the walk ends normally (first `break`), its trace
 holds the 3 × 3 start block, then column 3 and row 3 as the centre crosses `x = 0` (t = 3/2) and `z = -1` (t = 1) — in particular
